@@ -36,6 +36,16 @@ func c45Inside(p, d string) bool {
 func VerifC45Sanitize() {
 	sandbox := c45String("sandbox", verifCase("sandboxlen")) // >= 1: an empty sandbox disables the check by design
 	path := c45String("path", verifCase("pathlen"))
+	c45Check(sandbox, path)
+}
+
+// VerifC45DotDot: the sandbox `..` with every 2-character path (the region of the recorded finding, kept as its
+// own cheap unit so that the finding is reproduced in the quick tier).
+func VerifC45DotDot() {
+	c45Check("..", c45String("path", 2))
+}
+
+func c45Check(sandbox, path string) {
 	d := filepath.Clean(sandbox)
 	// known finding: a sandbox that itself climbs out of the working directory (`..`, `../..`) accepts its own parents
 	if verifKnown("C45-dotdot-sandbox", d == ".." || c45HasPrefix(d, "../")) {
